@@ -36,6 +36,20 @@ Conv2DVerdict(ev) ==
     IF ev.w = 0 \/ ev.h = 0 \/ P_Conv2D(ev.src, ev.ker2, ev.cx, ev.cy) = ev.dst THEN {}
     ELSE {V("P_Conv2D", "None", "convolve_2d", [w |-> ev.w, h |-> ev.h, K |-> Len(ev.ker2), cx |-> ev.cx, cy |-> ev.cy])}
 
+\* box_filter / blur: the two passes as written (P_BoxFilter) and, where no destination pixel is kept, the K x K window sum
+BoxVerdict(ev) ==
+    LET src == IF ev.kden = 1 THEN ev.src ELSE DivImg(ev.src, ev.kden)
+        d0  == IF ev.kden = 1 THEN ev.before ELSE ev.before     \* kept pixels (output_ignore) are compared undivided below
+        nopad == [big |-> <<>>, ox |-> 0, oy |-> 0]
+        key == ev.fn \o ":" \o ev.opt \o ":" \o ev.types
+        info == [w |-> ev.w, h |-> ev.h, K |-> ev.K, c |-> ev.c, anchor |-> ev.anchor]
+        two == P_BoxFilter(src, ev.K, ev.c, ev.opt, nopad, d0)
+    IN IF ev.w = 0 \/ ev.h = 0 THEN {}
+       ELSE (IF ev.opt = "output_ignore" /\ ev.kden # 1 THEN {}
+             ELSE IF two = ev.dst THEN {} ELSE {V("P_BoxTwoPass", "None", key, info)})
+            \cup (IF ev.opt \in {"extend_zero", "extend_constant", "output_zero"} /\ P_BoxWindowSum(src, ev.K, ev.c, ev.opt) # ev.dst
+                  THEN {V("P_BoxWindowSum", "None", key, info)} ELSE {})
+
 ExtendVerdict(ev) ==
     LET pad == [big |-> ev.big, ox |-> ev.ox, oy |-> ev.oy] key == "extend:" \o ev.opt
         info == [n |-> ev.n, w |-> W(ev.src), h |-> H(ev.src)]
@@ -47,6 +61,7 @@ Verdict(ev) ==
     CASE ev.e = "Corr"   -> CorrVerdict(ev)
       [] ev.e = "Conv2D" -> Conv2DVerdict(ev)
       [] ev.e = "Extend" -> ExtendVerdict(ev)
+      [] ev.e = "Box"    -> BoxVerdict(ev)
       [] ev.e = "Fault"  -> {V("P_NoFault", IF cur.w = 0 \/ cur.h = 0 THEN "empty-view" ELSE "None", cur.what \o ":" \o cur.opt,
                                [kind |-> ev.kind, w |-> cur.w, h |-> cur.h, K |-> cur.K, c |-> cur.c])}
       [] ev.e \in {"End", "Try"} -> {}
@@ -57,7 +72,7 @@ Init == l = 1 /\ bad = <<>> /\ drift = <<>> /\ nchk = 0 /\ cur = NoCase
 Step == /\ l <= NTr
         /\ bad' = MergeBad(bad, l, Verdict(Tr[l]))
         /\ drift' = MergeBad(drift, l, Drift(Tr[l]))
-        /\ nchk' = nchk + (IF Tr[l].e \in {"Corr", "Conv2D", "Extend"} THEN 1 ELSE 0)
+        /\ nchk' = nchk + (IF Tr[l].e \in {"Corr", "Conv2D", "Extend", "Box"} THEN 1 ELSE 0)
         /\ cur' = IF Tr[l].e = "Try" THEN [what |-> Tr[l].what, w |-> Tr[l].w, h |-> Tr[l].h, K |-> Tr[l].K, c |-> Tr[l].c, opt |-> Tr[l].opt] ELSE cur
         /\ l' = l + 1
 Fin  == /\ l = NTr + 1 /\ WriteOut(bad, drift, nchk) /\ l' = l + 1 /\ UNCHANGED <<bad, drift, nchk, cur>>
